@@ -224,6 +224,12 @@ class Instance(object):
         self.cls, self.attrs = cls, {}
         self.origin = 'Fresh'
 
+    def as_v_term(self):
+        """V term of a tuple-subclass instance (petl Record): its contents"""
+        if '_tuple' in self.attrs:
+            return as_v(self.attrs['_tuple'])
+        raise Unsupported('cannot lift %r into V' % (self,))
+
     def __repr__(self): return 'Instance(%s)' % self.cls.name
 
 
